@@ -874,7 +874,16 @@ class RpcServer:
                 with contextlib.suppress(BrokenPipeError, OSError):
                     _write_error_stream(transport.writer, _EMPTY_SCHEMA, exc, server_id=self._server_id)
                 raise
-            except (VersionError, RpcError) as exc:
+            except (VersionError, RpcError, ValueError, RuntimeError, LookupError, TypeError) as exc:
+                # Besides the protocol-level rejections, _read_request can fail
+                # while *resolving* a request it has already read in full: a
+                # client-supplied external-location pointer that does not
+                # decode, is refused by the URL validator or cannot be fetched
+                # or verified raises ValueError/RuntimeError.  The request
+                # stream is consumed by then, so answer with a typed error and
+                # keep serving instead of letting the exception end the
+                # connection.  (Transport failures are OSError/EOFError and
+                # still propagate to serve().)
                 with contextlib.suppress(BrokenPipeError, OSError):
                     _write_error_stream(transport.writer, _EMPTY_SCHEMA, exc, server_id=self._server_id)
                 return
